@@ -117,16 +117,20 @@ fn main() {
 }
 
 /// Unarmed warm-up through the real library and the real kernel, so that getrandom's cached
-/// availability flag can never be influenced by an injected fault; also proves that the
-/// pass-through works (two real key generations differ).
+/// availability flag can never be influenced by an injected fault. That the pass-through works is
+/// proven on the seam itself (two real getrandom(2) draws through the shim differ), not on any
+/// behaviour of the library under test.
 #[cfg(all(feature = "default-rng", not(miri)))]
 fn warm_up() {
     let set = sets::sets()[0];
-    let a = set.keygen_os().and_then(|r| r.ok()).map(|p| p.0.to_bytes());
-    let b = set.keygen_os().and_then(|r| r.ok()).map(|p| p.0.to_bytes());
-    match (a, b) {
-        (Some(a), Some(b)) if a != b => {}
-        _ => harness_error("kernel seam: unarmed pass-through to the real getrandom(2) does not work"),
+    let _ = catch(|| set.keygen_os().map(|r| r.is_ok()));
+    let mut a = [0u8; 32];
+    let mut b = [0u8; 32];
+    // SAFETY: plain getrandom(2) into valid buffers through the unarmed shim
+    let ra = unsafe { kernel::syscall(kernel::SYS_GETRANDOM, a.as_mut_ptr() as usize, 32, 0, 0, 0, 0) };
+    let rb = unsafe { kernel::syscall(kernel::SYS_GETRANDOM, b.as_mut_ptr() as usize, 32, 0, 0, 0, 0) };
+    if ra != 32 || rb != 32 || a == b {
+        harness_error("kernel seam: unarmed pass-through to the real getrandom(2) does not work");
     }
 }
 
